@@ -504,7 +504,13 @@ fn apply_changes(
 
     let mut client_entity = match params.entity_map.server_entry(server_entity) {
         EntityEntry::Occupied(entry) => {
-            DeferredEntity::new(world.get_entity_mut(entry.get())?, params.changes)
+            let mut client_entity =
+                DeferredEntity::new(world.get_entity_mut(entry.get())?, params.changes);
+            if !client_entity.contains::<Replicated>() {
+                // The entity could be reserved earlier by a mapped component that referenced it.
+                client_entity.insert(Replicated);
+            }
+            client_entity
         }
         EntityEntry::Vacant(entry) => {
             let mut client_entity = DeferredEntity::new(world.spawn_empty(), params.changes);
